@@ -10,7 +10,7 @@
    kernels (Duration.Seconds()*clockRate -> uint32, ntp.ToNTP) are Section
    variables; [elapsed_kernel] and [Ntp.ntp_kernel] instantiate them with
    primitive binary64 floats for execution. *)
-From IV Require Import Base.Word Base.F64 Model.Ntp.
+From IV Require Import Base.Word Base.F64 Base.KMap Model.Ntp.
 From Coq Require Import Floats.
 
 Definition MaxDur : Z := 9223372036854775807.
@@ -112,26 +112,10 @@ Inductive siop :=
 
 Definition stable := list (Z * (Z * sstate)).   (* ssrc -> (rate, state), sorted by ssrc *)
 
-Fixpoint st_put (k : Z) (v : Z * sstate) (t : stable) : stable :=
-  match t with
-  | [] => [(k, v)]
-  | (k', v') :: tl =>
-      if k <? k' then (k, v) :: t
-      else if k =? k' then (k, v) :: tl
-      else (k', v') :: st_put k v tl
-  end.
-
-Fixpoint st_del (k : Z) (t : stable) : stable :=
-  match t with
-  | [] => []
-  | (k', v') :: tl => if k =? k' then tl else (k', v') :: st_del k tl
-  end.
-
-Fixpoint st_get (k : Z) (t : stable) : option (Z * sstate) :=
-  match t with
-  | [] => None
-  | (k', v') :: tl => if k =? k' then Some v' else st_get k tl
-  end.
+(* Store / Delete / Load of the sync.Map (Base/KMap.v) *)
+Definition st_put : Z -> Z * sstate -> stable -> stable := kput.
+Definition st_del : Z -> stable -> stable := kdel.
+Definition st_get : Z -> stable -> option (Z * sstate) := kget.
 
 Section SenderInterceptor.
   Variable ek : Z -> Z -> Z.
@@ -160,4 +144,7 @@ Section SenderInterceptor.
         let '(t', out) := si_step t op in
         match op with SITick _ => out :: si_run t' tl | _ => si_run t' tl end
     end.
+
+  Fixpoint si_final (t : stable) (ops : list siop) : stable :=
+    match ops with [] => t | op :: tl => si_final (fst (si_step t op)) tl end.
 End SenderInterceptor.
